@@ -8,18 +8,18 @@ CHECKS = {
     "C01": dict(
         text="TLA+ spec wire/Framing.tla: SP over tcp and ipc byte streams seen from the receiving socket (handshake, length-prefixed frames, "
              "NNG_OPT_RECVMAXSZ, fatal items) with two formulations compared by TLC (step-wise receiver = meaning of the whole stream) and "
-             "isolation between connections.  TLC -simulate behaviours are replayed against real tcp and ipc listeners by a plain-socket "
+             "isolation between connections.  TLC -simulate behaviours are replayed against real tcp, ipc and socket:// listeners by a plain-socket "
              "peer, each under I/O clamps of 1, 2, 3, 7 bytes per read/write system call and unclamped (NNG_VERIF hook in "
              "nni_aio_iov_clamp_len, used by posix_tcpconn.c and posix_ipcconn.c for reads and writes) and payload scales 1 and 1000, in "
              "both directions (PULL receiving, PUSH sending); every delivered payload and every frame the socket writes is compared byte "
              "by byte; clamp 1 makes every byte boundary a segment boundary.",
-        note="Trusted: TLC, harness/drv_wire.c, the clamp hook, ASan/UBSan, accounting allocator. tcp and ipc only: socket-fd, websocket, "
+        note="Trusted: TLC, harness/drv_wire.c, the clamp hook, ASan/UBSan, accounting allocator. tcp, ipc and socket:// (websocket by C16); "
              "inproc and udp are not driven; raw-mode protocol headers are not sent; real time (bounded waits).",
         technique="TLA+ model checking (TLC) + simulation replay against real transports under a short-I/O clamp",
         ref="DESIGN.md section 4, C01"),
     "C11": dict(
         text="wire/Framing.tla: bad magic, wrong protocol id, short handshake + disconnect, frames above NNG_OPT_RECVMAXSZ, absurd lengths, bad "
-             "ipc type byte, truncated header/body + disconnect, plain disconnect, on one of up to three connections over tcp and ipc: "
+             "ipc type byte, truncated header/body + disconnect, plain disconnect, on one of up to three connections over tcp, ipc and socket://: "
              "only the offending connection is dropped, nothing malformed or oversize is delivered, the listener and the other "
              "connections keep working.  Behaviours replayed by a plain-socket peer with RECVMAXSZ = 4 units and unlimited, clamps 1/3/none, "
              "under ASan/UBSan; a wedged library is a watchdog timeout; the allocator balance is taken after every behaviour.",
